@@ -76,6 +76,8 @@ ID_SCHEMES = {
     "arrival_order": lambda i, n: str(i),
     "reverse_order": lambda i, n: str(n - 1 - i),
     "digit_boundary": lambda i, n: str(8 + i),  # "8", "9", "10", "11": text order 10 < 11 < 8 < 9
+    # ids in arrival order, and the file also has the OPTIONAL columns (fleet_id, allows_pooling) with every cell left blank
+    "blank_optional_columns": lambda i, n: str(i),
 }
 
 
@@ -107,9 +109,10 @@ def write_requests(path: str, deps: Tuple[int, ...], scheme: str = "arrival_orde
     olat, olon = h3.h3_to_geo(S["A"])
     dlat, dlon = h3.h3_to_geo(S["M1"])
     with open(path, "w") as f:
-        f.write("request_id,o_lat,o_lon,d_lat,d_lon,departure_time,passengers\n")
+        extra = scheme == "blank_optional_columns"
+        f.write("request_id,o_lat,o_lon,d_lat,d_lon,departure_time,passengers" + (",fleet_id,allows_pooling" if extra else "") + "\n")
         for i, d in enumerate(deps):
-            f.write(f"{ID_SCHEMES[scheme](i, len(deps))},{olat!r},{olon!r},{dlat!r},{dlon!r},{d},1\n")
+            f.write(f"{ID_SCHEMES[scheme](i, len(deps))},{olat!r},{olon!r},{dlat!r},{dlon!r},{d},1" + (",," if extra else "") + "\n")
 
 
 def run_updates(cfg, req_file, price_file, lazy: bool, stations, nsteps: int):
@@ -154,7 +157,7 @@ def _req_shard(shard) -> Dict[str, Any]:
         cfg = make_config(step=step, cancel=timeout, start=start, end=start + 100 * step)
         req_file = os.path.join(d, "req.csv")
         for deps in request_cases(step, start, timeout, maxlen):
-            for scheme in (("arrival_order",) if len(deps) < 2 else tuple(ID_SCHEMES)):
+            for scheme in (("arrival_order", "blank_optional_columns") if len(deps) < 2 else tuple(ID_SCHEMES)):
                 out["cases"] += 1
                 write_requests(req_file, deps, scheme)
                 want_adds, want_cancels = ref_requests(deps, step, start, timeout, NSTEPS, scheme)
